@@ -127,6 +127,10 @@ def alphabet(n, keys):
     if n:
         ops.append(["del_ix", 0])
         ops.append(["del_ix", -1])
+        # removal through the list API a section inherits (pop) and, for the curves of a LASFile, through delete_curve
+        ops.append(["pop", -1])
+        ops.append(["pop", 0])
+        ops.append(["delete_curve", n // 2])
         for p in range(n):
             ops.append(["del_key", p])
         for p in range(min(n, 3)):
@@ -154,6 +158,16 @@ def apply(section, factory, originals, op, step, ci):
         inserted = op[2]
     elif kind == "del_ix":
         del section[op[1]]
+        o.pop(op[1])
+    elif kind == "pop":
+        section.pop(op[1])
+        o.pop(op[1])
+    elif kind == "delete_curve":
+        las = getattr(section, "_verif_owner", None)
+        if las is not None and section is las.curves:
+            las.delete_curve(ix=op[1])
+        else:
+            section.pop(op[1])
         o.pop(op[1])
     elif kind == "del_key":
         key = keys[op[1]]
@@ -326,11 +340,49 @@ def step_check(root, history, op, do_roundtrip=True):
         return [viol("replay-diverged", root, history, op, "history replays", repr(e))], None
     before = [i.mnemonic for i in section]
     before_ids = [id(i) for i in section]
+    # every name is looked up through every access path BEFORE the operation (an answer remembered from an earlier
+    # lookup must not survive the operation)
+    if las is not None and section is las.curves:
+        try:
+            object.__setattr__(section, "_verif_owner", las)
+        except Exception:
+            pass
+    for k in before + ["A", "a", "UNKNOWN", "A:1", "A:2", "B"]:
+        for fn in (lambda: section[k], lambda: k in section, lambda: section.get(k), lambda: getattr(section, k) if k.isidentifier() else None,
+                   lambda: las[k] if (las is not None and section is las.curves) else None):
+            try:
+                fn()
+            except Exception:
+                pass
     try:
         new_orig, inserted = apply(section, factory, originals, op, len(history), ci)
     except Exception as e:
         return [viol("op-raises", root, history, op, "operation succeeds", "%s: %s" % (type(e).__name__, str(e)[:120]))], None
     bad = invariants(section, las, new_orig, ci, before, inserted, op[0])
+    # I2, negative half: a session name that no item wears any more resolves to nothing
+    if not bad:
+        now = [i.mnemonic for i in section]
+        for k in before:
+            if first_match(now, k, ci) is None:
+                try:
+                    got = section[k]
+                    bad.append(("I2-stale-name-resolves", "KeyError for %r (no item has this session name now)" % k,
+                                "item %r" % getattr(got, "original_mnemonic", got)))
+                    break
+                except KeyError:
+                    pass
+                except Exception as e:
+                    bad.append(("I2-stale-name-resolves", "KeyError for %r" % k, repr(e)))
+                    break
+                if las is not None and section is las.curves:
+                    try:
+                        las[k]
+                        bad.append(("I2-stale-name-resolves", "KeyError for las[%r]" % k, "data of a removed or renamed curve"))
+                        break
+                    except KeyError:
+                        pass
+                    except Exception:
+                        pass
     # I4 second half: an insertion renames nothing outside the inserted name's group
     if inserted is not None and not bad:
         X = useful(inserted)
